@@ -55,11 +55,13 @@ impl ExpectedVersion {
 
             // Must be empty - check if stream is empty
             (ExpectedVersion::Empty, CurrentVersion::Empty) => VersionGap::None,
-            (ExpectedVersion::Empty, CurrentVersion::Current(n)) => VersionGap::Ahead(n + 1),
+            (ExpectedVersion::Empty, CurrentVersion::Current(n)) => {
+                VersionGap::Ahead(n.saturating_add(1))
+            }
 
             // Must be at exact version
             (ExpectedVersion::Exact(expected), CurrentVersion::Empty) => {
-                VersionGap::Behind(expected + 1)
+                VersionGap::Behind(expected.saturating_add(1))
             }
             (ExpectedVersion::Exact(expected), CurrentVersion::Current(current)) => {
                 match expected.cmp(&current) {
